@@ -3,6 +3,7 @@ package monitor
 import (
 	"bytes"
 	"fmt"
+	"sort"
 	"strings"
 
 	"github.com/jmsadair/raft"
@@ -154,18 +155,109 @@ func (m *Linear) Step(c *sim.Cluster) *common.Violation {
 // was invoked, and reads that do not overlap never go backwards.
 
 type Reads struct {
-	A     *Apply
-	Kind  string // "read" (C05) or "lease" (C17)
-	Prop  string
-	done  map[int]bool
+	A      *Apply
+	Kind   string // "read" (C05) or "lease" (C17)
+	Prop   string
+	done   map[int]bool
 	Served int
+	// classification of a stale read (root-cause discriminators, DESIGN 2.7)
+	invokedAt map[int]int    // read id -> send clock at invocation
+	replies   map[int][]aeAck // read id -> AppendEntries replies its node received while it was pending
 }
 
-func (m *Reads) Attach(c *sim.Cluster) { m.done = map[int]bool{} }
-func (m *Reads) Mem(b *bytes.Buffer)   {}
+type aeAck struct {
+	from  int
+	order int // send clock of the request
+	seq   int // position in the reply sequence
+}
+
+func (m *Reads) Attach(c *sim.Cluster) {
+	m.done = map[int]bool{}
+	m.invokedAt = map[int]int{}
+	m.replies = map[int][]aeAck{}
+	prev := c.Net.OnReply
+	c.Net.OnReply = func(msg *sim.Msg) {
+		if prev != nil {
+			prev(msg)
+		}
+		if msg.Kind == "AE" && msg.Err == nil {
+			// only replies that arrive while a read is pending can confirm it
+			for _, op := range c.Ops {
+				if op.Kind == m.Kind && op.Node == msg.From && !op.Resolved && !op.Gone {
+					m.replies[op.ID] = append(m.replies[op.ID], aeAck{from: msg.To, order: msg.Order})
+				}
+			}
+		}
+	}
+}
+
+// classify explains which acknowledgements can have confirmed a stale read:
+// only a quorum of voters answering requests that were sent after the read was
+// invoked proves that the node was still leader when the read arrived.
+func (m *Reads) classify(c *sim.Cluster, rd *sim.ClientOp) string {
+	inv, ok := m.invokedAt[rd.ID]
+	if !ok {
+		return "unclassified"
+	}
+	v, _ := c.View(rd.Node)
+	fresh, freshNonVoter, old := map[int]bool{}, map[int]bool{}, 0
+	voters := 0
+	isVoter := func(i int) bool {
+		if v.HasConfiguration {
+			return v.Configuration.IsVoter[c.Nodes[i].ID]
+		}
+		return i < c.Cfg.Voters
+	}
+	for i := range c.Nodes {
+		if isVoter(i) {
+			voters++
+		}
+	}
+	for _, a := range m.replies[rd.ID] {
+		switch {
+		case a.order < inv:
+			old++
+		case isVoter(a.from):
+			fresh[a.from] = true
+		default:
+			freshNonVoter[a.from] = true
+		}
+	}
+	switch {
+	case (len(fresh)+1)*2 > voters:
+		return "despite-fresh-voter-quorum"
+	case (len(fresh)+len(freshNonVoter)+1)*2 > voters:
+		return "confirmed-by-non-voters"
+	case old > 0:
+		return "confirmed-by-round-started-before-read"
+	}
+	return "no-confirmation"
+}
+func (m *Reads) Mem(b *bytes.Buffer) {
+	// the classifier's memory for reads still pending
+	for id, inv := range m.invokedAt {
+		if m.done[id] {
+			continue
+		}
+		var acks []string
+		for _, a := range m.replies[id] {
+			acks = append(acks, fmt.Sprintf("%d:%t", a.from, a.order >= inv))
+		}
+		sort.Strings(acks)
+		fmt.Fprintf(b, "READ%s %d %v\n", m.Kind, id, acks)
+	}
+}
 
 func (m *Reads) Step(c *sim.Cluster) *common.Violation {
 	for _, rd := range c.Ops {
+		if rd.Kind == m.Kind {
+			if _, ok := m.invokedAt[rd.ID]; !ok {
+				// ops are polled at the quiescent point right after their
+				// submission: requests sent by the submission itself count as
+				// sent after the invocation
+				m.invokedAt[rd.ID] = rd.SendClock
+			}
+		}
 		if rd.Kind != m.Kind || !rd.Resolved || rd.Err != nil || m.done[rd.ID] {
 			continue
 		}
@@ -194,7 +286,7 @@ func (m *Reads) Step(c *sim.Cluster) *common.Violation {
 			}
 		}
 		if res.Len < need {
-			return viol(m.Prop, "stale-read", "%s read on n%d saw %d applied operations although write %q (position %d) was acknowledged before the read was invoked", m.Kind, rd.Node, res.Len, needOp, need)
+			return viol(m.Prop, "stale-read:"+m.classify(c, rd), "%s read on n%d saw %d applied operations although write %q (position %d) was acknowledged before the read was invoked", m.Kind, rd.Node, res.Len, needOp, need)
 		}
 		for _, prev := range c.Ops {
 			if prev.ID == rd.ID || (prev.Kind != "read" && prev.Kind != "lease") || !prev.Resolved || prev.Err != nil {
